@@ -27,6 +27,8 @@ class Tables:
         for v in F.vars.values():
             for kind, tmpl in TABLE_TEMPLATES.items():
                 if v.get("template") == tmpl:
+                    if kind in ("to_std", "from_std") and v["targs"][1] != F.numeric:
+                        continue
                     self.vars[(kind, v["targs"][0])] = v
         self.standard = {}   # enum type -> enumerator name
         self.dims = {}       # unit enum type -> variable
